@@ -666,6 +666,15 @@ func (s *ScopedKeyManager) DeriveFromKeyPathCache(
 	s.mtx.Lock()
 	defer s.mtx.Unlock()
 
+	// No private keys are available from a watching-only or locked
+	// address manager, cached or not.
+	if s.rootManager.WatchOnly() {
+		return nil, managerError(ErrWatchingOnly, errWatchingOnly, nil)
+	}
+	if s.rootManager.IsLocked() {
+		return nil, managerError(ErrLocked, errLocked, nil)
+	}
+
 	// First, try to look up the key itself in the proper cache, if the key
 	// is here, then we don't need to do anything further.
 	privKeyVal, err := s.privKeyCache.Get(kp)
